@@ -135,6 +135,22 @@ def run(check, repo: Repo) -> None:
                  fail_detail="the returned array is neither flattened nor rank-checked: 2-D input whose first dimension equals ndim (a column vector, a nested list) is stored "
                              "as a calibration with more than one entry per axis")
 
+    # … and the length that is compared with ndim is the length of THAT array (after flattening): `len(value)` on the raw argument only bounds the first
+    # dimension of a nested input — an (ndim, k) array passes and comes back with ndim·k entries
+    len_on = set()
+    for n in ast.walk(vn):
+        if isinstance(n, ast.If) and any(isinstance(s_, ast.Raise) for s_ in n.body) and _mentions_len_mismatch(n.test):
+            for c in ast.walk(n.test):
+                if isinstance(c, ast.Call) and call_name(c) == "len" and c.args and isinstance(c.args[0], ast.Name):
+                    len_on.add(c.args[0].id)
+                if isinstance(c, ast.Attribute) and c.attr in ("size", "shape") and isinstance(c.value, ast.Name):
+                    len_on.add(c.value.id)
+    params_vn = set(func_params(vn))
+    check.decide(bool(len_on & seq_names), "C03-R1", "validate_ndinfo: the length compared with ndim is that of the returned (flattened) array", str(sorted(len_on)), vmod.line(vn),
+                 definite=bool(len_on) and len_on <= params_vn and flat,
+                 fail_detail=f"the length test reads {sorted(len_on)}, the function returns {sorted(seq_names)}: the raw argument's first dimension is compared while the flattened "
+                             f"array is returned — a nested (ndim, k) value is accepted with ndim·k calibration entries")
+
     # ---- R2 private-write ownership ------------------------------------------------------------
     counts = {a: 0 for a in ("_array", "_origin", "_sampling", "_units")}
     all_classes = [(mod, cls)] + [repo.cls(f"{m}:{c}") for m, c, _ in SUBS]
@@ -595,3 +611,5 @@ MANIFEST = {
     "technique": "CFG dominance + intra-procedural may-alias/freshness analysis + in-place/copy sibling agreement (AST)",
 }
 MANIFEST["text"] += ' Also: Ellipsis is expanded before the index is padded to ndim and stands for ndim − (len − 1) slices; validate_ndinfo returns a flattened or rank-checked array.'
+MANIFEST["text"] += ' The stale-read rule is field-sensitive (a store into self.array invalidates shape/ndim/dtype reads, a store into sampling only sampling reads …) and is a def-use fact over the CFG, reported as definite whatever the layout of the method.'
+MANIFEST["text"] += ' validate_ndinfo: the length compared with ndim is that of the returned, flattened array (not of the raw argument).'
